@@ -63,6 +63,14 @@ func c10Spec(c c10Case) idp.LogoutSpec {
 	case 6:
 		l.Destination = c03NearMiss(world.SPSLO, 1) // differs by a trailing slash
 	}
+	if c.Dest >= 7 {
+		// the same URL to a URL library (query, fragment, userinfo, host case, default port, dot
+		// segment, percent-encoded letter), another string
+		l.Destination = c03NearMiss(world.SPSLO, c.Dest-4)
+	}
+	if c.Issuer >= 5 {
+		l.Issuer = c03NearMiss(world.IDPIssuer, c.Issuer-2)
+	}
 	switch c.Issuer {
 	case 3:
 		l.Issuer = c03NearMiss(world.IDPIssuer)
@@ -647,11 +655,24 @@ func c10Cases() []c10Case {
 			cases = append(cases, c)
 		}
 	})
+	// URL-equivalent near misses of the Destination and of the Issuer
+	for _, kind := range []string{"LogoutRequest", "LogoutResponse"} {
+		for nm := 3; nm <= 9; nm++ {
+			for _, sign := range []int{0, 1} {
+				for _, skip := range []bool{false, true} {
+					for _, noiss := range []bool{false, true} {
+						cases = append(cases, c10Case{Kind: kind, Dest: nm + 4, Sign: sign, SkipSig: skip, NoIssuer: noiss},
+							c10Case{Kind: kind, Issuer: nm + 2, Sign: sign, SkipSig: skip, NoIssuer: noiss})
+					}
+				}
+			}
+		}
+	}
 	return cases
 }
 
 func c10Run(r *mc.Run) {
-	r.Rule = "full product kind(2) x Version(3) x Destination(7: SLO URL, absent, empty, ACS URL, evil, the SLO URL in another letter case / with a trailing slash) x Issuer(5 incl. the issuer in another letter case / with a trailing slash) x Status(6 incl. nested second-level codes, LogoutResponse) x signing state(9: unsigned, K1, K2, untrusted, tampered, 4 wrapping/relocation shapes) x presentation(2) x signature checking(2) x IdP issuer configured(2), unsigned roots also with a self-asserted SignatureValidated attribute; kind-confusion matrix 3x3x2x2; 7 x 5 sequences (a delivery whose decoding fails, then a genuine signed message) through validators and pre-decoders, judged against outcomes taken at process start; 16 rotations (a used instance is given a new certificate store object trusting the other key, with and without a new clock object: the old signer is refused, the new one honoured); ValidateDecoded* on hand-built structs (full field product); non-trivial = the message reached the field checks or the signature logic (all do); distinct = distinct case"
+	r.Rule = "full product kind(2) x Version(3) x Destination(7: SLO URL, absent, empty, ACS URL, evil, the SLO URL in another letter case / with a trailing slash; plus 7 spellings a URL library would call the same URL: query, fragment, userinfo, host case, default port, dot segment, percent-encoded letter) x Issuer(5 + the same 7 spellings, incl. the issuer in another letter case / with a trailing slash) x Status(6 incl. nested second-level codes, LogoutResponse) x signing state(9: unsigned, K1, K2, untrusted, tampered, 4 wrapping/relocation shapes) x presentation(2) x signature checking(2) x IdP issuer configured(2), unsigned roots also with a self-asserted SignatureValidated attribute; kind-confusion matrix 3x3x2x2; 7 x 5 sequences (a delivery whose decoding fails, then a genuine signed message) through validators and pre-decoders, judged against outcomes taken at process start; 16 rotations (a used instance is given a new certificate store object trusting the other key, with and without a new clock object: the old signer is refused, the new one honoured); ValidateDecoded* on hand-built structs (full field product); non-trivial = the message reached the field checks or the signature logic (all do); distinct = distinct case"
 	r.Assume("RSA unforgeable", "goxmldsig canonicalisers used by the harness signer")
 	// sequences: references first, while the process has decoded nothing else; the sequences
 	// themselves run at the very end, one after the other
